@@ -2253,8 +2253,7 @@ def c19_pair_cases(tier, seed):
             # one key per chunk, every key observed: the driver waits for the observations (a message read later from the
             # pipe would otherwise count as a read of terminal input in its quiescence test)
             c.meta["sync_keys"] = 1
-        c1.meta["prints"] = prints
-        c1.meta["no_model"] = 1       # (the model's sub-loops step over a message; they do not keep it for later)
+        c1.meta["prints"] = prints      # (model: a raw read steps over the message, which stays in the stream for the main loop)
         pairs.append((c1, c2))
     return pairs
 
@@ -2330,8 +2329,8 @@ def c19_corr(res, exe, driver, tier, seed, tmp):
                 "(ii) an independent emulator interprets everything written: every message must be on the terminal exactly once and "
                 "whole, messages of one thread in the order sent, each print call must have returned Ok, and each read must return "
                 "exactly the text that was being edited. printer-subloop: pairs of one script with and without a message handed "
-                "over INSIDE an incremental search or a circular completion (implementation only: the model's sub-loops do not "
-                "keep a message for later): after every chunk the row the cursor is on shows the same text and column in both "
+                "over INSIDE an incremental search or a circular completion (also compared with the model, whose raw reads step "
+                "over a message and leave it in the stream for the main loop): after every chunk the row the cursor is on shows the same text and column in both "
                 "runs, both reads return the same line, and the message is on the terminal exactly once.")
     for c, impl, model, raw in out[:3]:
         res.samples.append({"keys": c.keys, "prints": {str(k): v for k, v in c.meta["prints"].items()}, "impl": " ## ".join(impl)[:300]})
